@@ -315,6 +315,43 @@ class ValidateComponentFrame(Target):
         return [('the-option-table-is-not-modified', st.table == st.before)]
 
 
-TARGETS = [ParseRouting(), KnownOptionsTable(), ValidateComponentFrame()]
+class DiscoverStages(Target):
+    """Loading starts from the stage files the dump wrote: stage<i>.conf / stage<i>.instance.conf for EVERY stage index --
+    including indexes with two and three digits.  (Concrete file lists: bounded in the number of stages.)"""
+    prop = 'C19'
+    name = 'Dosini._discover_stages'
+    file = DS
+    qualname = 'Dosini._discover_stages'
+    compare_return = False
+    trusted = ["glob.glob lists the files that match the pattern", "re / os.path on concrete file names (stdlib, native)"]
+    assumptions = ["workflows of 1, 3, 12 or 101 stages (BOUNDED), package and instance flavours, with an unrelated file in the "
+                   "directory"]
+
+    def setup(self, c):
+        n = c.one_of('stages', [1, 3, 12, 101])
+        inst = c.one_of('is_instance', [True, False])
+        files = []
+        for i in range(n):
+            files.append('/pkg/conf/stages.d/stage%d.conf' % i)
+            files.append('/pkg/conf/stages.d/stage%d.instance.conf' % i)
+        cls = Obj('Dosini-class')
+        return State(args=[cls, '/pkg/conf', inst], n=n, inst=inst, files=files, cls=cls)
+
+    def real_function(self):
+        return Dosini._discover_stages.__func__
+
+    def externs(self, c, st):
+        import fnmatch
+        return {'glob.glob': Extern('glob.glob', lambda c, pat: [f for f in st.files if fnmatch.fnmatch(f, pat)])}
+
+    def ensures(self, c, st, out):
+        if out.kind == 'raise':
+            return [('no-exception', False)]
+        suffix = '.instance.conf' if st.inst else '.conf'
+        want = {i: '/pkg/conf/stages.d/stage%d%s' % (i, suffix) for i in range(st.n)}
+        return [('every-stage-file-is-found-whatever-its-index', dict(out.value) == want)]
+
+
+TARGETS = [ParseRouting(), KnownOptionsTable(), ValidateComponentFrame(), DiscoverStages()]
 LEMMAS = [KeyTables()]
 BOUNDED = [SectionRoundTrip()]
